@@ -10,10 +10,13 @@ coefficients and handed to Coq (Spectrum/CharPolyExec.v, vm_compute):
   prem_similar  :  U† H U == H_tilde     (mod x^(N+1))   } i.e. the conclusions of C01/C02
   concl_charpoly:  char_poly H_tilde == char_poly H, coefficient-wise (mod x^(N+1))
 
-The list-based determinant of CharPolyExec.v is not proved equal to MathComp's \\det, so this
-is a test (inside Coq's kernel arithmetic, independent of the Python oracle) that the
-implementation satisfies the premises under which the theorem was proved, and of the
-theorem's conclusion in the executable reading.  A deliberately corrupted control case is
+The list-based algorithms of CharPolyExec.v are proved correct against MathComp for the operations of
+any comRingType (Spectrum/CharPolyExecCorrect.v: the premise checks imply the premises of
+C04_charpoly_trunc, charpoly computes char_poly); the tie runs the same Gallina terms over stdlib Q,
+whose arithmetic (Qred, Qeq_bool) is the only unproved link.  So this is a test (inside Coq's kernel
+arithmetic, independent of the Python oracle) that the implementation satisfies the premises under
+which the theorem was proved, and of the theorem's conclusion in the executable reading.
+A deliberately corrupted control case is
 appended to every run and must be rejected.
 """
 import copy
